@@ -19,7 +19,7 @@ RULE = ("seed-generated server states per version (0-29 players, 0-3 teams, 0-4 
 
 
 def gen_cases(tier, rng):
-    n = 120 if tier == "quick" else 1500
+    n = 120 if tier == "quick" else 8000
     cases = []
     for ver in (1, 2, 3):
         seeds = [rng.fork("gs%d/%d" % (ver, i)).next() % (1 << 48) for i in range(n)]
